@@ -102,6 +102,8 @@ pub struct Ctx<'a> {
     pub mode: &'static str,
     /// replay / minimisation: take every optional branch (no sampling)
     pub full: bool,
+    /// successors by a legal move whose fields differ from the rules (filled by check_generation)
+    pub unsound: Vec<(Mv, BoardState)>,
 }
 
 impl<'a> Ctx<'a> {
@@ -213,6 +215,9 @@ pub fn check_generation<'b>(
                         ply,
                         path,
                     );
+                }
+                if !captures_only && path.is_empty() && cx.unsound.len() < 8 {
+                    cx.unsound.push((d, s.clone()));
                 }
             }
             None => {
@@ -382,10 +387,37 @@ pub fn walk_game(cx: &mut Ctx, rng: &mut Rng) {
                 }
             }
         }
+        cx.unsound.clear();
         let succ = generate_moves(&b, MoveGenerationMode::AllMoves, z);
         let sound: Vec<(Mv, BoardState)> = check_generation(cx, &b, &p, &succ, false, ply, &[]).into_iter().map(|(m, s)| (m, s.clone())).collect();
         if cx.judge.c01 && c01_nontrivial(&p) {
             cx.acc.nontrivial.insert(ch);
+        }
+        // C01 quantifies over positions reached by legal move sequences: the engine holds such
+        // a position as its own successor board. Where that board differs from the rules
+        // (C02's business) the moves generated FROM it must still be the legal moves of the
+        // real position.
+        let unsound = std::mem::take(&mut cx.unsound);
+        if cx.judge.c01 {
+            for (m, s) in &unsound {
+                let q = p.apply(*m);
+                cx.acc.count("c01_generations_from_unsound_own_successor");
+                let z2 = z;
+                let r = std::panic::catch_unwind(std::panic::AssertUnwindSafe(|| generate_moves(s, MoveGenerationMode::AllMoves, z2)));
+                match r {
+                    Ok(s2) => {
+                        let before = cx.acc.violations.len();
+                        check_generation(cx, s, &q, &s2, false, ply, &[*m]);
+                        // mark the class: these only arise below a wrong successor
+                        for v in cx.acc.violations.iter_mut().skip(before) {
+                            if !v.sig.ends_with("/from-own-successor") {
+                                v.sig.push_str("/from-own-successor");
+                            }
+                        }
+                    }
+                    Err(_) => cx.violate("C01", "C01/all-moves/panic/from-own-successor".into(), format!("generating from the engine's own successor of {} by {} panicked", p.fen(), m.uci()), ply, &[*m]),
+                }
+            }
         }
         if cx.judge.c01 || cx.judge.c02 || cx.judge.c05 {
             // template reach probes
@@ -670,7 +702,7 @@ pub fn run(seed: u64, run: u64, tag: &str, judge: Judge, z: &ZobristHasher, max_
     }
     acc.count(&format!("source:{}", game.source));
     {
-        let mut cx = Ctx { z, judge, acc: &mut acc, game: &game, run, keys: HashMap::new(), mode: "walk", full: false };
+        let mut cx = Ctx { z, judge, acc: &mut acc, game: &game, run, keys: HashMap::new(), mode: "walk", full: false, unsound: vec![] };
         walk_game(&mut cx, &mut rng);
         if judge.c05 && run % 16 == 0 {
             let p = game.final_pos();
@@ -700,7 +732,7 @@ pub fn replay(sc: &Value, prop: &str, z: &ZobristHasher) -> Acc {
     let game = Game { start, moves, source: "replay" };
     let judge = Judge::only(prop);
     let mut rng = Rng::new(1);
-    let mut cx = Ctx { z, judge, acc: &mut acc, game: &game, run: 0, keys: HashMap::new(), mode: "walk", full: true };
+    let mut cx = Ctx { z, judge, acc: &mut acc, game: &game, run: 0, keys: HashMap::new(), mode: "walk", full: true, unsound: vec![] };
     walk_game(&mut cx, &mut rng);
     acc
 }
